@@ -110,7 +110,7 @@ def run(ctx, res):
             res.violate(f"C02:eval:{head}:{want[1] if want[0] == 'err' else 'value'}",
                         f"{{{{ {src} }}}} under [{v.label()}] gives {got!r}; documented semantics give {want!r}",
                         {"src": src, "tree": core.sx(tree), "variant": v.label(), "data": {k: repr(x) for k, x in data.items()}})
-        if comp != want:
+        if comp != want and not (ctx.gen_changed or ctx.proof_broken or ctx.tie_broken):
             raise core.HarnessError(f"model pipeline differs from its reference on {src!r} although proved equal: {comp} vs {want}")
     # 3. compile_expression returns the value itself ---------------------------------------------------
     ce_checked = compile_expression_pass(ctx, res, jinja2, trees, srcs, rng)
